@@ -253,6 +253,15 @@ func (b *boundsCtx) implicit() []lin {
 			switch {
 			case x.Callee == "len" || x.Callee == "cap":
 				out = append(out, one)
+				// lengths fixed by the standard library: hex text is twice its input (and stays ASCII under ToLower /
+				// ToUpper), a digest is as long as its hash says
+				if len(x.Args) == 1 {
+					if n, ok := knownLen(x.Args[0]); ok {
+						eq := one.clone()
+						eq.k = -n
+						out = append(out, eq, lin{t: map[string]int64{k: -1}, k: n})
+					}
+				}
 				// len(bytes.TrimRight(s, cut)) <= len(s)
 				if len(x.Args) == 1 {
 					if tr, ok := x.Args[0].(*CallV); ok && (tr.Callee == "bytes.TrimRight" || tr.Callee == "bytes.TrimLeft" || tr.Callee == "bytes.TrimSpace" || tr.Callee == "bytes.Trim") {
@@ -378,4 +387,37 @@ func (b *boundsCtx) inconsistent() bool {
 		}
 	}
 	return false
+}
+
+// knownLen: length of a value produced by a standard-library function whose output length is fixed by its contract.
+func knownLen(v Val) (int64, bool) {
+	cv, ok := stripIface(v).(*CallV)
+	if !ok {
+		return 0, false
+	}
+	switch cv.Callee {
+	case "strings.ToLower", "strings.ToUpper":
+		// length-preserving on ASCII: only claimed for hex text
+		if in, ok := stripIface(cv.Args[0]).(*CallV); ok && in.Callee == "encoding/hex.EncodeToString" {
+			return knownLen(in)
+		}
+	case "encoding/hex.EncodeToString":
+		if n, ok := knownLen(cv.Args[0]); ok {
+			return 2 * n, true
+		}
+	case "(hash.Hash).Sum":
+		if len(cv.Args) == 2 && isNilConst(cv.Args[1]) {
+			if h, ok := stripIface(cv.Args[0]).(*CallV); ok {
+				switch h.Callee {
+				case "crypto/sha1.New":
+					return 20, true
+				case "crypto/sha256.New":
+					return 32, true
+				case "crypto/sha512.New":
+					return 64, true
+				}
+			}
+		}
+	}
+	return 0, false
 }
